@@ -6,6 +6,7 @@ from .analysis import term_str, strip, roots, subterms, callee_of, BRANCH, POLL
 
 CE = "compact_encoding::CompactEncoding"
 CE_METHODS = {CE + "::encoded_size": "size", CE + "::encode": "encode", CE + "::decode": "decode"}
+VEC_METHODS = {"vec_encoded_size": "size", "vec_encode": "encode", "vec_decode": "decode"}
 
 
 def classify_type(ty, local_types):
@@ -161,6 +162,14 @@ def seq(ctx, fa):
             cls = classify_type(st or "?", lt)
             fld = field_of_term(fa.arg_origin(s, 0)) if CE_METHODS[c] != "decode" else None
             e = Elem(s, cls, fld, CE_METHODS[c], st)
+        elif c.startswith("compact_encoding::VecEncodable::vec_") and c.split("::")[-1] in VEC_METHODS:
+            # `T::vec_encode(slice, buf)` called directly is what `<Vec<T> as CompactEncoding>::encode` dispatches to
+            m = re.match(r"^<(.+) as compact_encoding::VecEncodable>::\w+$", full)
+            st = "std::vec::Vec<%s>" % m.group(1) if m else None
+            cls = classify_type(st or "?", lt)
+            kind = VEC_METHODS[c.split("::")[-1]]
+            fld = field_of_term(fa.arg_origin(s, 0)) if kind != "decode" else None
+            e = Elem(s, cls, fld, kind, st)
         elif c in ("compact_encoding::take_array", "compact_encoding::take_array_mut"):
             n = int(t["gargs"][0]) if t.get("gargs") and t["gargs"][0].isdigit() else None
             e = Elem(s, ("fixed", n), None, "take", "[u8; %s]" % n)
